@@ -3,12 +3,13 @@ Design check of spec/msg/Validator.tla (implementation-shaped verdict vs declara
 enumerated message space; the enumerated rows are materialised as real signed messages and given to the real
 gpbft.Participant.ValidateMessage (fresh / warm caches / 16 goroutines); TLC evaluates the C05 clauses on
 every recorded row (spec/msg/ValidatorTable.tla)."""
-import os, json, random, threading
+import os, json, random, threading, time
 import vlib, msgcommon as mc
 from vlib import Inconclusive
 
 LEVEL = "model_checking"
 NSLICES_QUICK = 32
+NSLICES_THOROUGH = int(os.environ.get("VERIF_MSG_SLICES", "4"))   # 1 = the whole 830 800-message space in one run
 
 ALPHABET = [  # valid-looking and a few forged messages presented under every progress state
     dict(ph="QUALITY", r=0), dict(ph="PREPARE", r=0),
@@ -27,11 +28,12 @@ base_row = mc.base_row
 
 def design(ck, out):
     thorough = ck.tier == "thorough"
-    sl = ck.seed % NSLICES_QUICK
+    ns = NSLICES_THOROUGH if thorough else NSLICES_QUICK
+    sl = ck.seed % ns
     jobs = []
     if thorough:
-        jobs.append(lambda: vlib.tlc(mc.SPECDIR, "MCValidator", "MCValidatorThorough.cfg", workdir=os.path.join(ck.dir, "tlc-design"),
-                                     workers=8, timeout=1500, heap="6g"))
+        jobs.append(lambda: vlib.tlc(mc.SPECDIR, "MCValidator", "MCt.cfg", workdir=os.path.join(ck.dir, "tlc-design"), workers=8, timeout=1500, heap="6g",
+                                     extra_files={"MCt.cfg": mc.cfg_with(mc.SPECDIR, "MCValidatorThorough.cfg", NSlices=ns, Slice=sl)}))
     else:
         jobs.append(lambda: vlib.tlc(mc.SPECDIR, "MCValidator", "MCq.cfg", workdir=os.path.join(ck.dir, "tlc-design"), workers=4, timeout=400,
                                      heap="4g", extra_files={"MCq.cfg": mc.cfg_with(mc.SPECDIR, "MCValidator.cfg", Slice=sl)}))
@@ -39,12 +41,23 @@ def design(ck, out):
                                  workers=2, timeout=400, heap="3g"))
     jobs.append(lambda: vlib.tlc(mc.SPECDIR, "MCValidator", "MCValidatorSentinel.cfg", workdir=os.path.join(ck.dir, "tlc-design-mutant"),
                                  workers=2, timeout=400, heap="3g"))
-    rc, rp, rm = mc.run_parallel(jobs, 3)
+    cache_cfgs = ["ValidatorCache.cfg", "ValidatorCacheMutSig.cfg"] + (["ValidatorCacheMutAgg.cfg"] if thorough else [])
+    for i, c in enumerate(cache_cfgs):
+        jobs.append(lambda c=c, i=i: vlib.tlc(mc.SPECDIR, "ValidatorCache", c, workdir=os.path.join(ck.dir, "tlc-design-cache%d" % i), workers=1,
+                                              timeout=300, heap="2g"))
+    res = mc.run_parallel(jobs, 4)
+    rc, rp, rm = res[:3]
+    ck.require_tlc_ok("cache", res[3])
+    ck.add_tlc("design:cache", res[3], note="all sequences of validations and evictions over a 12-message alphabet of twins: cached verdict = cache-less verdict")
+    for c, r in zip(cache_cfgs[1:], res[4:]):
+        if r.violated != "HistoryIndependent":
+            raise Inconclusive("non-vacuity: cache model %s was not refuted\n%s" % (c, r.out[-1200:]))
+        ck.add_tlc("design:cache-mutant(%s)" % c, r, exhaustive=False, note="identifier without signature / aggregate: must be refuted")
     ck.require_tlc_ok("content", rc)
     ck.require_tlc_ok("progress", rp)
     if rm.violated != "D_Design":
         raise Inconclusive("non-vacuity: the design invariant did not fail for the MaxUint64 round sentinel variant\n" + rm.out[-1500:])
-    ck.add_tlc("design:content(%s)" % ("whole space" if thorough else "slice %d/%d" % (sl, NSLICES_QUICK)), rc,
+    ck.add_tlc("design:content(%s)" % ("whole space" if ns == 1 else "slice %d/%d" % (sl, ns)), rc,
                note="every message of the slice: Verdict (code order) = OK <=> all C05 rules hold; rows emitted for the driver")
     ck.add_tlc("design:progress", rp, note="message alphabet x every progress state: ByProgress <=> Relevant, accept <=> rules and relevant")
     ck.add_tlc("design:mutant(round sentinel)", rm, exhaustive=False, note="must fail: COMMIT(round 2^64-1) with a PREPARE justification of another round")
@@ -94,6 +107,33 @@ def compose(ck, rows, path):
     return len(out), nf
 
 
+def race_part(ck, inp):
+    """-race build of the same driver on the neighbourhood / grid families plus a sample of the slice"""
+    rows = vlib.read_ndjson(inp)
+    rng = random.Random(ck.seed + 5)
+    famsz = {}
+    for r in rows:
+        famsz[r["fam"]] = famsz.get(r["fam"], 0) + 1
+    special = {f for f, n in famsz.items() if n < 60 or n > 60}      # neighbourhoods, grids and justification-less families
+    pick = {f for f in famsz if f in special or rng.random() < 0.05}
+    keep = [dict(r) for r in rows if r["fam"] in pick][:40000]
+    for i, r in enumerate(keep):
+        r["id"] = i
+    rin, rout = os.path.join(ck.dir, "c05-race-in.ndjson"), os.path.join(ck.dir, "c05-race-out.ndjson")
+    vlib.write_ndjson(rin, keep)
+    binary = vlib.build_driver("msgval", ck.dir, race=True)
+    rc, out = vlib.run_driver(binary, "TestC05Table", env=dict(VERIF_IN=rin, VERIF_OUT=rout, VERIF_SEED=str(ck.seed + 1), VERIF_CONC="16",
+                              VERIF_CONC_EVERY="1"), timeout=1500)
+    if "DATA RACE" in out:
+        ck.violation("C05_HistoryIndependent:race", "the race detector reports a data race while 16 goroutines validate messages on one participant",
+                     dict(output=out[-6000:], seed=ck.seed))
+        return
+    if rc != 0:
+        raise Inconclusive("race driver failed:\n" + out[-3000:])
+    mc.check_table(ck, "ValidatorTable", "ValidatorTable.cfg", rout, "c05race", signature, chunk=20000, par=4)
+    ck.cov["race_rows"] = len(keep)
+
+
 def signature(clause, row):
     return "%s:%s:r%s:%s%+d" % (clause, row["ph"], "max" if row["r"] == -1 else row["r"], row["jph"], row["jr"])
 
@@ -104,7 +144,7 @@ def run(ck):
 
     def build():
         try:
-            box["bin"] = vlib.build_driver("msgval", ck.dir, race=thorough)
+            box["bin"] = vlib.build_driver("msgval", ck.dir)
         except BaseException as e:
             box["err"] = e
     t = threading.Thread(target=build)
@@ -115,16 +155,14 @@ def run(ck):
         t.join()
     if "err" in box:
         raise box["err"]
+    vlib.log("[%s] design + build done at %.0fs" % (ck.pid, time.time() - ck.t0))
     inp, outp = os.path.join(ck.dir, "c05-in.ndjson"), os.path.join(ck.dir, "c05-out.ndjson")
     n, nf = compose(ck, dz["rows"], inp)
     rc, out = vlib.run_driver(box["bin"], "TestC05Table", env=dict(VERIF_IN=inp, VERIF_OUT=outp, VERIF_SEED=str(ck.seed),
                               VERIF_CONC="16", VERIF_CONC_EVERY="1" if not thorough else "2"), timeout=1500)
     if rc != 0:
-        if "DATA RACE" in out:
-            ck.violation("C05_HistoryIndependent:race", "the race detector reports a data race while 16 goroutines validate messages on one participant",
-                         dict(output=out[-6000:], seed=ck.seed))
-            return
         raise Inconclusive("driver failed:\n" + out[-3000:])
+    vlib.log("[%s] driver done at %.0fs (%d rows)" % (ck.pid, time.time() - ck.t0, n))
     recs = vlib.read_ndjson(outp)
     if len(recs) != n:
         raise Inconclusive("driver wrote %d of %d rows" % (len(recs), n))
@@ -147,6 +185,8 @@ def run(ck):
         raise Inconclusive("vacuous run: no round 2^64-1 row")
     mc.check_table(ck, "ValidatorTable", "ValidatorTable.cfg", outp, "c05", signature, chunk=20000 if thorough else 16000,
                    par=6 if thorough else 5)
+    if thorough:
+        race_part(ck, inp)
     evals = sum(1 + r["nw"] + r["nc"] for r in recs)
     ck.cov["evaluations"] = evals
     ck.cov["distinct_nontrivial"] = len(recs)
